@@ -63,34 +63,46 @@ def do_import(src, prop, name):
         sh("git -C /repo worktree remove --force %s" % wt)
 
 
+def run_one(sid, tier):
+    """apply the stored patch in a scratch worktree of /repo's HEAD and run the property's check against it
+    (VERIF_REPO points the check at that tree; evidence goes to a scratch dir so that committed evidence is not touched)"""
+    d = os.path.join(SEEDED, sid)
+    meta = json.load(open(os.path.join(d, "meta.json")))
+    prop = meta["property"]
+    wt = "/tmp/seedrun_%s" % sid
+    sh("git -C /repo worktree remove --force %s" % wt)
+    rc, out = sh("git -C /repo worktree add -q --detach %s HEAD" % wt)
+    try:
+        rc, out = sh("git apply %s/patch.diff" % d, cwd=wt)
+        if rc:
+            return sid, {"detected": None, "note": "patch does not apply to current /repo HEAD: " + out[-200:]}
+        t = time.time()
+        env = "VERIF_REPO=%s VERIF_EVIDENCE_DIR=/tmp/seedrun_ev_%s" % (wt, sid)
+        rc, out = sh("%s ./check %s --tier %s --jobs %d" % (env, prop, tier, JOBS), cwd=VERIF, timeout=7200)
+        viol = [l for l in out.splitlines() if l.startswith("VIOLATION")]
+        first = [l for l in out.splitlines() if l.strip().startswith("instance=")][:1]
+        res = {"property": prop, "tier": tier, "exit": rc, "detected": bool(rc == 1 and viol), "wall_s": round(time.time() - t, 1),
+               "first": (first[0].strip()[:300] if first else "")}
+        if rc not in (0, 1):
+            res["tail"] = out[-600:]
+        return sid, res
+    finally:
+        sh("git -C /repo worktree remove --force %s" % wt)
+        sh("rm -rf /tmp/seedrun_ev_%s" % sid)
+
+
+JOBS = 8
+
+
 def do_run(ids, tier):
+    import concurrent.futures as cf
     res_path = os.path.join(SEEDED, "RESULTS.json")
     results = json.load(open(res_path)) if os.path.exists(res_path) else {}
-    rc, st = sh("git -C /repo status --porcelain --untracked-files=no")
-    if st.strip():
-        print("refusing: /repo has uncommitted changes")
-        return
-    for sid in ids:
-        d = os.path.join(SEEDED, sid)
-        meta = json.load(open(os.path.join(d, "meta.json")))
-        prop = meta["property"]
-        rc, out = sh("git -C /repo apply %s/patch.diff" % d)
-        if rc:
-            print(sid, "patch does not apply:", out[-200:])
-            results[sid] = {"detected": None, "note": "patch does not apply to current /repo"}
-            continue
-        try:
-            t = time.time()
-            rc, out = sh("./check %s --tier %s" % (prop, tier), cwd=VERIF, timeout=7200)
-            viol = [l for l in out.splitlines() if l.startswith("VIOLATION")]
-            first = [l for l in out.splitlines() if l.strip().startswith("instance=")][:1]
-            results[sid] = {"property": prop, "tier": tier, "exit": rc, "detected": bool(rc == 1 and viol),
-                            "wall_s": round(time.time() - t, 1), "first": (first[0].strip()[:300] if first else "")}
-            print("%-14s exit=%d detected=%s %5.0fs %s" % (sid, rc, results[sid]["detected"], time.time() - t, results[sid]["first"][:150]), flush=True)
-            if rc not in (0, 1):
-                print(out[-800:])
-        finally:
-            sh("git -C /repo checkout -- .")
+    with cf.ThreadPoolExecutor(max_workers=2) as ex:
+        for sid, res in ex.map(lambda s_: run_one(s_, tier), ids):
+            results[sid] = res
+            print("%-14s exit=%s detected=%s %5.0fs %s" % (sid, res.get("exit"), res.get("detected"), res.get("wall_s", 0),
+                                                         (res.get("first") or res.get("note") or res.get("tail", ""))[:170]), flush=True)
     json.dump(results, open(res_path, "w"), indent=1, sort_keys=True)
 
 
